@@ -272,7 +272,7 @@ _v_re = re.compile(r'<<\s*"V",\s*(-?\d+),\s*(-?\d+),\s*"([^"]*)",\s*"([^"]*)",\s
 _stats_re = re.compile(r'<<\s*"STATS",\s*"\[([-\d, ]+)\]"\s*>>')
 
 
-def validate(module, cfg, trace, work, nchunks=None, timeout=900, dfs=False, xmx="3g"):
+def validate(module, cfg, trace, work, nchunks=None, timeout=2400, dfs=False, xmx="3g"):
     """Validate a recorded trace with a Trace* module, in parallel chunks.
 
     Returns dict(violations=[{run,event,prop,clause,detail}], stats=[summed counters], events, states)."""
